@@ -16,11 +16,13 @@
 package memca
 
 import (
+	"bytes"
 	"context"
 	"crypto/x509"
 	"encoding/pem"
 	"fmt"
 
+	"github.com/google/gce-tcb-verifier/cmd/output"
 	"github.com/google/gce-tcb-verifier/keys"
 	"github.com/google/gce-tcb-verifier/sign/transform"
 	styp "github.com/google/gce-tcb-verifier/sign/types"
@@ -90,7 +92,37 @@ func (ca *CertificateAuthority) PrimarySigningKeyVersion(context.Context) (strin
 
 // Finalize completes any unflushed changes that the given mutation represents. The mutation
 // object should be the same type as NewMutation returns.
-func (ca *CertificateAuthority) Finalize(context.Context, styp.CertificateAuthorityMutation) error {
+func (ca *CertificateAuthority) Finalize(ctx context.Context, mutation styp.CertificateAuthorityMutation) error {
+	m, ok := mutation.(*Mutation)
+	if !ok || m.ca != ca {
+		return fmt.Errorf("expected a mutation of this memca certificate authority, got %v", mutation)
+	}
+	rootName := ca.RootName
+	if m.rootName != nil {
+		rootName = *m.rootName
+	}
+	certs := make(map[string]*x509.Certificate, len(m.certs)+1)
+	for name, cert := range m.certs {
+		certs[name] = cert
+	}
+	if m.rootCert != nil {
+		certs[rootName] = m.rootCert
+	}
+	// An existing certificate is only replaced with overwrite permission.
+	if !output.AllowOverwrite(ctx) {
+		for name, cert := range certs {
+			if old, ok := ca.getCert(name); ok && !bytes.Equal(old.Raw, cert.Raw) {
+				return fmt.Errorf("certificate for key %q exists, overwrite not enabled", name)
+			}
+		}
+	}
+	ca.RootName = rootName
+	if m.primarySigningKey != nil {
+		ca.PrimarySigningKey = *m.primarySigningKey
+	}
+	for name, cert := range certs {
+		ca.setCert(name, cert)
+	}
 	return nil
 }
 
@@ -99,29 +131,36 @@ func (ca *CertificateAuthority) NewMutation() styp.CertificateAuthorityMutation 
 	return &Mutation{ca: ca}
 }
 
-// Mutation represents a memca.CertificateAuthority mutation.
+// Mutation represents a memca.CertificateAuthority mutation. Its changes take effect at Finalize.
 type Mutation struct {
-	ca *CertificateAuthority
+	ca                *CertificateAuthority
+	rootName          *string
+	primarySigningKey *string
+	certs             map[string]*x509.Certificate
+	rootCert          *x509.Certificate
 }
 
 // SetPrimaryRootKeyVersion updates the mutation object to change the primary root key
 // version to the given one.
-func (m *Mutation) SetPrimaryRootKeyVersion(keyVersionName string) { m.ca.RootName = keyVersionName }
+func (m *Mutation) SetPrimaryRootKeyVersion(keyVersionName string) { m.rootName = &keyVersionName }
 
 // SetPrimarySigningKeyVersion updates the mutation object to change the primary signing key
 // version to the given one.
 func (m *Mutation) SetPrimarySigningKeyVersion(keyVersionName string) {
-	m.ca.PrimarySigningKey = keyVersionName
+	m.primarySigningKey = &keyVersionName
 }
 
 // AddSigningKeyCert adds a certificate for the given keyVersionName to the CA.
 func (m *Mutation) AddSigningKeyCert(keyVersionName string, cert *x509.Certificate) {
-	m.ca.setCert(keyVersionName, cert)
+	if m.certs == nil {
+		m.certs = make(map[string]*x509.Certificate)
+	}
+	m.certs[keyVersionName] = cert
 }
 
 // SetRootKeyCert changes the CA's stored root certificate to cert.
 func (m *Mutation) SetRootKeyCert(cert *x509.Certificate) {
-	m.ca.setCert(m.ca.RootName, cert)
+	m.rootCert = cert
 }
 
 // PrepareResources ensures all necessary resources are present for the CA to function. This is
